@@ -227,6 +227,16 @@ pub fn second_opinion(ctx: &Context, e: ExprRef, used: &[ExprRef], env: &Env, re
         rec.exclude("second opinion: non-ASCII symbol name");
         return Ok(());
     }
+    // z3 reads simple symbols such as `-0` or `+1` as numerals although SMT-LIB 2.6 makes them symbols
+    // (a simple symbol only must not start with a digit); control characters inside |..| differ too
+    if used.iter().any(|s| {
+        let n = ctx.get_symbol_name(*s).unwrap();
+        let first = n.chars().next().unwrap_or('a');
+        (!smtref::needs_quoting(n) && !(first.is_ascii_alphabetic() || first == '_')) || n.chars().any(|c| c.is_control())
+    }) {
+        rec.exclude("second opinion: symbol spelled like a number, or with control characters");
+        return Ok(());
+    }
     let mut script = String::from(crate::second::prelude());
     for s in used {
         script.push_str(&cmd_text(ctx, &SmtCommand::DeclareConst(*s)).map_err(|p| Failure::new("harness/second-opinion/write", p.msg))?);
